@@ -283,7 +283,12 @@ impl OW {
     pub fn next_now(&mut self, sink: &mut Sink, i: usize) {
         let cur = self.cur;
         let s = self.subs[i].as_mut().unwrap();
-        let v = match &mut s.k { SubK::S(sb) => Some(sb.next_now().0), SubK::A(sb) => now(sb.next_now()).map(|t| t.0) };
+        // `next_now` and `next_ref_now` alternate
+        let v = if cur % 2 == 0 {
+            match &mut s.k { SubK::S(sb) => Some(sb.next_now().0), SubK::A(sb) => now(sb.next_now()).map(|t| t.0) }
+        } else {
+            match &mut s.k { SubK::S(sb) => Some(sb.next_ref_now().0), SubK::A(sb) => now(sb.next_ref_now()).map(|g| g.0) }
+        };
         s.fresh = false;
         let shown = v.map(|v| v.to_string()).unwrap_or_else(|| "blocked".into());
         if shown != cur.to_string() { sink.oracle_fail(&self.p("C01"), &format!("next_now of subscriber {i} returned {shown}, the latest value is {cur}")); }
@@ -293,7 +298,11 @@ impl OW {
     pub fn get(&mut self, sink: &mut Sink, i: usize) {
         let cur = self.cur;
         let s = self.subs[i].as_ref().unwrap();
-        let v = match &s.k { SubK::S(sb) => Some(sb.get().0), SubK::A(sb) => now(sb.get()).map(|t| t.0) };
+        let v = if cur % 2 == 0 {
+            match &s.k { SubK::S(sb) => Some(sb.get().0), SubK::A(sb) => now(sb.get()).map(|t| t.0) }
+        } else {
+            match &s.k { SubK::S(sb) => Some(sb.read().0), SubK::A(sb) => now(sb.read()).map(|g| g.0) }
+        };
         let shown = v.map(|v| v.to_string()).unwrap_or_else(|| "blocked".into());
         if shown != cur.to_string() { sink.oracle_fail(&self.p("C01,C03"), &format!("get of subscriber {i} returned {shown}, the latest value is {cur}")); }
         sink.stat("get");
@@ -328,8 +337,10 @@ impl OW {
     pub fn owner_get(&mut self, sink: &mut Sink, h: usize) {
         let cur = self.cur;
         let v = match self.owner(h) {
+            // `get` and `read` alternate
             Own::U(o) => Some(Observable::get(o).0), Own::UA(o) => Some(Observable::get_async(o).0),
-            Own::S(o) => Some(o.get().0), Own::SA(o) => now(o.get()).map(|t| t.0),
+            Own::S(o) => Some(if cur % 2 == 0 { o.get().0 } else { o.read().0 }),
+            Own::SA(o) => if cur % 2 == 0 { now(o.get()).map(|t| t.0) } else { now(o.read()).map(|g| g.0) },
         };
         let shown = v.map(|v| v.to_string()).unwrap_or_else(|| "blocked".into());
         if shown != cur.to_string() { sink.oracle_fail(&self.p("C01"), &format!("get through owner {h} returned {shown}, the latest value is {cur}")); }
